@@ -807,6 +807,45 @@ fn sweep_apps(thorough: bool) -> Vec<App> {
             }
         }
     }
+    // decimal remainder across scales: mantissas at the powers of two and ten x scales 0..28, every
+    // pair (bringing both to one scale needs up to 190 bits; the result is exact and small)
+    {
+        let mut mants: Vec<u128> = Vec::new();
+        for k in [0u32, 1, 8, 16, 31, 32, 33, 48, 63, 64, 65, 80, 95, 96] {
+            mants.push((1u128 << k) - 1);
+            if k < 96 {
+                mants.push(1u128 << k);
+            }
+        }
+        let mut p = 1u128;
+        for k in 0..=28u32 {
+            if k % 3 == 0 || k >= 27 {
+                mants.extend([p, p + 1, p * 7 + 3]);
+            }
+            p *= 10;
+        }
+        mants.extend([4_294_967_295, 7_922_816_251_426_433_759_354_395_034, 18_446_744_073_709_551_617, 3]);
+        mants.retain(|m| *m > 0 && *m < (1u128 << 96));
+        mants.sort();
+        mants.dedup();
+        let mut decs: Vec<RV> = Vec::new();
+        for m in &mants {
+            for scale in [0u32, 1, 9, 10, 19, 20, 27, 28] {
+                decs.push(RV::Dec(RDec { neg: false, mant: *m, scale }));
+            }
+        }
+        for (i, x) in decs.iter().enumerate() {
+            for (j, y) in decs.iter().enumerate() {
+                apps.push(App::Bin(BinOp::Rem, x.clone(), y.clone()));
+                if (i + j) % 7 == 0 {
+                    if let (RV::Dec(a), RV::Dec(b)) = (x, y) {
+                        apps.push(App::Bin(BinOp::Rem, RV::Dec(RDec { neg: true, ..a.clone() }), y.clone()));
+                        apps.push(App::Bin(BinOp::Rem, x.clone(), RV::Dec(RDec { neg: true, ..b.clone() })));
+                    }
+                }
+            }
+        }
+    }
     let pairs = |a: &Vec<RV>, b: &Vec<RV>, apps: &mut Vec<App>, cap: usize| {
         for x in a.iter().take(cap) {
             for y in b.iter().take(cap) {
